@@ -698,11 +698,9 @@ Definition shutdown_ok (i : binput) (o : bobs) : bool :=
 
 Definition ok06 (i : binput) (o : bobs) : bool := ok_bus i o && wait_ok i o && shutdown_ok i o.
 Definition ok07 (i : binput) (o : bobs) : bool := ok_bus i o && seq_order_ok i o.
-(* known finding bit 1: only the publish-order clause for Async+Sequential handlers fails *)
-Definition known07 (i : binput) (o : bobs) : nat := if ok_bus i o && negb (seq_order_ok i o) then 1 else 0.
 
 Definition check06 (c : binput * bobs) : bool * bool * nat := let '(i, o) := c in (agree i o, ok06 i o, 0).
-Definition check07 (c : binput * bobs) : bool * bool * nat := let '(i, o) := c in (agree i o, ok07 i o, known07 i o).
+Definition check07 (c : binput * bobs) : bool * bool * nat := let '(i, o) := c in (agree i o, ok07 i o, 0).
 
 (* ================= C03 (deadlock half) ================= *)
 (* a program thread that never finishes is excused only by the documented exception: it waits for the mutex of a
@@ -713,7 +711,8 @@ Definition self_blocked (s : bstate) (a : actor) : bool :=
   | Some (ILock h :: _) => match assoc_get (seqlocks s) (r_id h) with Some b => Nat.eqb a b | None => false end
   | _ => false
   end.
-(* ... or it waits for a mutex whose holder is (transitively) stuck in that exception: a victim of the same cycle *)
+(* ... or it waits for a mutex whose holder - or for its turn behind a delivery that - is (transitively) stuck in that
+   exception: a victim of the same cycle *)
 Fixpoint excused_wait (fuel : nat) (s : bstate) (a : actor) : bool :=
   match fuel with
   | 0 => false
@@ -724,6 +723,14 @@ Fixpoint excused_wait (fuel : nat) (s : bstate) (a : actor) : bool :=
         | Some b => Nat.eqb a b || excused_wait f s b
         | None => false
         end
+    | Some (ITaskStart _ h :: _) =>
+        (* an Async+Sequential delivery queued behind one that is stuck in the exception *)
+        if h_seq (r_spec h) then
+          match queue s (r_id h) with
+          | b :: _ => negb (Nat.eqb a b) && excused_wait f s b
+          | [] => false
+          end
+        else false
     | _ => false
     end
   end.
